@@ -70,6 +70,7 @@ func cmdFanIn(a Args) {
 	seed := int64(a.num("seed", 1))
 	runs := a.num("runs", 10)
 	msgs := a.num("msgs", 30)
+	retOnly := a.str("retonly", "") != "" // only the retained rewriter and the re-subscriber (C08), many more rounds
 	out, err := os.Create(a.str("out", "trace.ndjson"))
 	if err != nil {
 		fatal("%v", err)
@@ -105,6 +106,9 @@ func cmdFanIn(a Args) {
 		subStartMu.Unlock()
 		npub := 2 + rng.Intn(3)
 		nsub := 1 + rng.Intn(2)
+		if retOnly {
+			npub, nsub = 0, 0
+		}
 		var wg sync.WaitGroup
 		var readers sync.WaitGroup
 		stop := make(chan struct{})
@@ -206,7 +210,7 @@ func cmdFanIn(a Args) {
 						g0 := curSub // the SUBSCRIBE whose SUBACK was read last
 						subStartMu.Unlock()
 						if p.first&1 == 0 {
-							g0 = g // a live forward: only the integrity of the payload is judged
+							g0 = 0 // a live forward (it precedes the proc event): only the integrity of the payload is judged
 						}
 						log.add(map[string]interface{}{"e": "got", "s": name, "g": g, "g0": g0, "ok": ok})
 					}
@@ -252,7 +256,7 @@ func cmdFanIn(a Args) {
 		wg.Add(1)
 		go func() {
 			defer wg.Done()
-			for n := 0; n < msgs; n++ {
+			for n := 0; n < msgs && !retOnly; n++ {
 				pl := make([]byte, 5900)
 				binary.BigEndian.PutUint32(pl[0:4], 7)
 				binary.BigEndian.PutUint32(pl[4:8], uint32(n))
